@@ -19,7 +19,9 @@ enclosing each call site (`raise D from ...` converts); pyparsing's own
 IndexError -> ParseException conversion around parse actions is re-read from
 the installed pyparsing source. Violation = a class other than
 ParserException reaching an entry point, reported with the witness chain.
-Not decided: hangs; equality of a surviving edition with the complete
+Fail actions (set_fail_action) are roots too, without the IndexError
+conversion; a regular-expression match dereferenced without None test is an
+AttributeError fact. Not decided: hangs; equality of a surviving edition with the complete
 listing; exceptions originating in library calls outside the primitive
 table; the ParseResult post-processing layer (its raise sites validate
 programmer-supplied types, not listing content).
